@@ -181,11 +181,23 @@ func (v *verifSanitizer) obligation(o verifObligation, all bool) {
 			}
 			switch o.Src {
 			case "json_field":
-				for _, field := range []string{"name", "published", "updated", "mediaType", "type", "totalItems"} {
+				/* the value as a string, and as JSON-LD likes to write a single value: a list of one (and of two) */
+				shapes := []func(string) any{func(p string) any { return p }, func(p string) any { return []any{p} }, func(p string) any { return []any{p, "x"} },
+					func(p string) any { return map[string]any{"@value": p} }}
+				for fi, field := range []string{"name", "published", "updated", "mediaType", "type", "totalItems", "content", "content/plain", "content/gemini"} {
+				for si, shape := range shapes {
+					if si > 0 && (v.n+fi+si)%2 == 0 {
+						continue
+					}
 					doc := base()
-					doc[field] = payload
+					if strings.HasPrefix(field, "content/") {
+						doc["mediaType"] = "text/" + strings.TrimPrefix(field, "content/")
+						doc["content"] = shape(payload)
+					} else {
+						doc[field] = shape(payload)
+					}
 					if field == "type" {
-						doc[field] = "Note" + payload
+						doc[field] = shape("Note" + payload)
 					}
 					post, err := NewPostFromObject(doc, nil)
 					if err != nil {
@@ -194,9 +206,10 @@ func (v *verifSanitizer) obligation(o verifObligation, all bool) {
 						v.show(o, post, "post."+field)
 					}
 				}
-				for _, field := range []string{"name", "preferredUsername", "published", "summary", "type"} {
+				}
+				for fi, field := range []string{"name", "preferredUsername", "published", "summary", "type"} {
 					doc := map[string]any{"type": "Person", "name": "someone", "preferredUsername": "user", "id": "https://example.org/u"}
-					doc[field] = payload
+					doc[field] = shapes[(v.n+fi)%len(shapes)](payload)
 					if field == "type" {
 						doc[field] = "Person" + payload
 					}
@@ -210,7 +223,7 @@ func (v *verifSanitizer) obligation(o verifObligation, all bool) {
 				}
 				/* attachments and links: names, media types */
 				doc := base()
-				doc["attachment"] = []any{map[string]any{"type": "Link", "href": "https://example.org/a", "name": payload},
+				doc["attachment"] = []any{map[string]any{"type": "Link", "href": "https://example.org/a", "name": shapes[v.n%2](payload)},
 					map[string]any{"type": "Image", "url": "https://example.org/b", "mediaType": payload},
 					map[string]any{"type": "Link" + payload, "href": "https://example.org/c"}}
 				if post, err := NewPostFromObject(doc, nil); err == nil {
